@@ -16,14 +16,24 @@ func verifLenString(tag string, max int) string {
 
 var VerifC13MaxPaths = 2
 
+// verifLenPick: identifier lengths around every width a fixed-size padding buffer could have
+func verifLenPick(tag string) string {
+	n := []int{0, 1, 2, 65, 130}[nondetChoice(tag, 5)]
+	s := ""
+	for i := 0; i < n; i++ {
+		s += "x"
+	}
+	return s
+}
+
 func VerifHarness_C13_ErrorToString() {
 	n := 1 + nondetChoice("paths", VerifC13MaxPaths)
 	e := NewError("cause")
 	for i := 0; i < n; i++ {
 		p := &Path{
 			Prefix:   verifLenString("prefix", 1),
-			SourceID: verifLenString("sourceID", 2),
-			TargetID: verifLenString("targetID", 2),
+			SourceID: verifLenPick("sourceID"),
+			TargetID: verifLenPick("targetID"),
 		}
 		if nondetChoice("hasSourceType", 2) == 1 {
 			p.SourceType = "S"
